@@ -18,6 +18,8 @@ def run(ctx):
     st_clustermodel.run_stage(ctx, PREFIXES, thorough=not ctx.quick)
     n = 600 if ctx.quick else 8000
     st_cluster.run_stage(ctx, PREFIXES, [("fraction", n // 2), ("mixed", n // 4), ("sharers", n // 4)])
+    # whole-GPU nominations of one cycle on top of each other (victims moved by one statement, taken again by the next)
+    st_cluster.run_stage(ctx, ["C02_NominationFits", "C02_Exclusive"], [("abandon", n // 2)], tag="-abandon")
     if os.path.exists(os.path.join(os.path.dirname(__file__), "st_nodeacct.READY")):
         import st_nodeacct
         st_nodeacct.run_stage(ctx, ["C02_"])
